@@ -13,6 +13,8 @@ os.dup2(devnull.fileno(), 1)
 sys.stdout = devnull
 os.dup2(devnull.fileno(), 2)
 
+import qcore
+
 import asynq
 from asynq.batching import BatchBase, BatchItemBase
 from asynq.futures import ConstFuture
@@ -69,7 +71,67 @@ def awaited(i, st=None):
     return ConstFuture(i)
 
 
-def make_inner(shape):
+class AnyEq(object):
+    """compares equal to anything, like unittest.mock.ANY"""
+
+    def __eq__(self, other):
+        return True
+
+    def __ne__(self, other):
+        return False
+
+    def __hash__(self):
+        return 0
+
+
+class RaisingEq(object):
+    def __eq__(self, other):
+        raise ValueError("these objects cannot be compared")
+
+    __ne__ = __eq__
+    __hash__ = None
+
+
+class NoTruth(object):
+    def __bool__(self):
+        raise ValueError("the truth value of a comparison result is ambiguous")
+
+
+class ArrayEq(object):
+    """== is element-wise, as for array types: the result is not a bool"""
+
+    def __eq__(self, other):
+        return NoTruth()
+
+    __ne__ = __eq__
+    __hash__ = None
+
+
+def payload(st, v):
+    """the object Value(...) carries for the spec's value v, by the payload kind of the case"""
+    kind = st["kind"]
+    if kind == "int":
+        return v
+    if kind == "none":
+        return None
+    objs = st["objs"]
+    if kind == "same":
+        if not objs:
+            objs.append((object(), 0))
+        return objs[0][0]
+    if kind == "anyeq":
+        o = AnyEq()
+    elif kind == "badeq":
+        o = RaisingEq() if v % 2 else ArrayEq()
+    elif kind == "marker":
+        o = qcore.MarkerObject(u"end of generator")
+    else:
+        raise ValueError(kind)
+    objs.append((o, v))
+    return o
+
+
+def make_inner(shape, st):
     @async_generator()
     def inner():
         m = 0
@@ -78,12 +140,12 @@ def make_inner(shape):
                 yield awaited(j)
             else:
                 m += 1
-                yield Value(10 + m)
+                yield Value(payload(st, 10 + m))
     return inner
 
 
 def make(body, shape, st):
-    inner = make_inner(shape)
+    inner = make_inner(shape, st)
 
     @async_generator()
     def gen():
@@ -95,7 +157,7 @@ def make(body, shape, st):
                     st["bad_await"] = (i, got)
             elif e == "V":
                 st["pulls"] += 1
-                yield Value(i + 1)
+                yield Value(payload(st, i + 1))
             else:
                 for task in inner():
                     v = yield task
@@ -107,15 +169,23 @@ def make(body, shape, st):
     return gen()
 
 
-def encv(v):
+def encv(v, st=None):
+    """results are identified by IDENTITY with the objects the body put into Value(...)"""
     if v is END_OF_GENERATOR:
         return "END"
-    return v if isinstance(v, int) and not isinstance(v, bool) else repr(v)
+    if st is None or st["kind"] == "int":
+        return v if type(v) is int else "?" + type(v).__name__
+    if st["kind"] == "none":
+        return 0 if v is None else "?" + type(v).__name__
+    for o, vid in st["objs"]:
+        if o is v:
+            return vid
+    return "?" + type(v).__name__
 
 
 def run_history(case):
     asynq.scheduler.reset()
-    st = {"pulls": 0}
+    st = {"pulls": 0, "kind": case.get("kind", "int"), "objs": []}
     g = make(case["body"], case.get("inner", ""), st)
     last = None
     got = []
@@ -167,7 +237,7 @@ def run_history(case):
 
             try:
                 v = driver(last)
-                r = ["end"] if v is END_OF_GENERATOR else ["val", [encv(v)]]
+                r = ["end"] if v is END_OF_GENERATOR else ["val", [encv(v, st)]]
             except Exception as e:
                 r = ["raised", type(e).__name__]
             while len(sib) < len(block):
@@ -194,13 +264,13 @@ def run_history(case):
             else:
                 try:
                     v = last.value()
-                    r = ["end"] if v is END_OF_GENERATOR else ["val", [encv(v)]]
+                    r = ["end"] if v is END_OF_GENERATOR else ["val", [encv(v, st)]]
                 except Exception as e:
                     r = ["raised", type(e).__name__]
         else:
             try:
                 vs = list_of_generator(g) if op == "list" else take_first(g, o["n"])
-                r = ["lst", [encv(v) for v in vs], st["pulls"]]
+                r = ["lst", [encv(v, st) for v in vs], st["pulls"]]
             except RuntimeError:
                 r = ["runtime"]
             except StopIteration:
